@@ -126,5 +126,291 @@ if __name__ == "__main__":
         mn = int(params[0]) if params else 1
         mx = int(params[1]) if len(params) > 1 else 8
         gen_mem(outdir, mn, mx, nomax=(mx < 0))
+    elif kind == "xlcorpus":
+        pass   # handled at the end of the file
     else:
         sys.exit("unknown kind")
+
+
+# ---------------------------------------------------------------------------------------------
+# E2 corpus: synthetic valid modules with uneven function sizes, duplicated bodies, wild names,
+# data/element segments, name sections, plus a "reference" variant of each (for -r).
+import random
+
+BIN = {I32: ["i32.add", "i32.sub", "i32.mul", "i32.and", "i32.or", "i32.xor", "i32.shl", "i32.shr_u", "i32.shr_s", "i32.rotl", "i32.rotr"],
+       I64: ["i64.add", "i64.sub", "i64.mul", "i64.and", "i64.or", "i64.xor", "i64.shl", "i64.shr_u", "i64.rotl"],
+       F32: ["f32.add", "f32.sub", "f32.mul", "f32.min"], F64: ["f64.add", "f64.sub", "f64.mul", "f64.max"]}
+UN = {I32: ["i32.clz", "i32.ctz", "i32.popcnt", "i32.eqz"], I64: ["i64.clz"], F32: ["f32.abs", "f32.neg"], F64: ["f64.abs", "f64.neg"]}
+CMP = {I32: ["i32.eq", "i32.ne", "i32.lt_s", "i32.lt_u", "i32.gt_s", "i32.le_u", "i32.ge_s"], I64: ["i64.eq", "i64.ne", "i64.lt_s"],
+       F32: ["f32.eq", "f32.lt"], F64: ["f64.eq", "f64.gt"]}
+CONV = {I32: [("i32.wrap_i64", I64), ("i32.reinterpret_f32", F32)], I64: [("i64.extend_i32_u", I32), ("i64.extend_i32_s", I32), ("i64.reinterpret_f64", F64)],
+        F32: [("f32.convert_i32_s", I32), ("f32.demote_f64", F64), ("f32.reinterpret_i32", I32)],
+        F64: [("f64.convert_i32_s", I32), ("f64.convert_i64_u", I64), ("f64.promote_f32", F32), ("f64.reinterpret_i64", I64)]}
+LOADS = {I32: ["i32.load", "i32.load8_s", "i32.load8_u", "i32.load16_s", "i32.load16_u"], I64: ["i64.load", "i64.load8_u", "i64.load16_s", "i64.load32_s", "i64.load32_u"],
+         F32: ["f32.load"], F64: ["f64.load"]}
+STORES = {I32: ["i32.store", "i32.store8", "i32.store16"], I64: ["i64.store", "i64.store8", "i64.store16", "i64.store32"], F32: ["f32.store"], F64: ["f64.store"]}
+WILD_CONST = {I32: [0, 1, 0x7FFFFFFF, 0x80000000, 0xFFFFFFFF, 42], I64: [0, 1, 0x7FFFFFFFFFFFFFFF, 0x8000000000000000, 0xFFFFFFFFFFFFFFFF],
+              F32: [0, 0x80000000, 0x7F800000, 0xFF800000, 0x7FC00000, 0x7FA00001, 0x00000001, 0x3F800000, 0x7F7FFFFF],
+              F64: [0, 0x8000000000000000, 0x7FF0000000000000, 0x7FF8000000000000, 0x7FF4000000000001, 1, 0x3FF0000000000000, 0x7FEFFFFFFFFFFFFF]}
+
+
+class BodyGen:
+    def __init__(self, rnd, locals_types, funcs, has_mem, globals_, table_types):
+        self.r = rnd; self.lt = locals_types; self.funcs = funcs; self.has_mem = has_mem; self.globals = globals_; self.tt = table_types
+        self.depth_labels = 0
+
+    def const(self, t):
+        r = self.r
+        if r.random() < 0.3:
+            v = r.choice(WILD_CONST[t])
+        else:
+            v = r.getrandbits(32 if t in (I32, F32) else 64)
+            if t == I32 and r.random() < 0.5:
+                v = r.randrange(0, 300)
+        return [({I32: "i32.const", I64: "i64.const", F32: "f32.const", F64: "f64.const"}[t], v)]
+
+    def expr(self, t, d):
+        r = self.r
+        k = r.random()
+        loc = [i for i, x in enumerate(self.lt) if x == t]
+        if d <= 0 or k < 0.15:
+            if loc and r.random() < 0.6:
+                return [("local.get", r.choice(loc))]
+            return self.const(t)
+        if k < 0.45:
+            return self.expr(t, d - 1) + self.expr(t, d - 1) + [r.choice(BIN[t])]
+        if k < 0.52:
+            if t == I32 and r.random() < 0.5:
+                ct = r.choice([I32, I64, F32, F64])
+                return self.expr(ct, d - 1) + self.expr(ct, d - 1) + [r.choice(CMP[ct])]
+            return self.expr(t, d - 1) + [r.choice([u for u in UN[t] if not (t == I32 and u == "i32.eqz")] or UN[t])]
+        if k < 0.60:
+            op, src = r.choice(CONV[t])
+            return self.expr(src, d - 1) + [op]
+        if k < 0.68 and self.has_mem:
+            return self.expr(I32, d - 1) + [("i32.const", 0xFFF), "i32.and", (r.choice(LOADS[t]), r.choice([0, 1, 4, 100, 4000]))]
+        if k < 0.75:
+            return self.expr(I32, d - 1) + [("if", t)] + self.expr(t, d - 1) + ["else"] + self.expr(t, d - 1) + ["end"]
+        if k < 0.80:
+            # block with a conditional early exit carrying the value
+            return [("block", t)] + self.expr(t, d - 1) + self.expr(I32, d - 1) + [("br_if", 0)] + ["drop"] + self.expr(t, d - 1) + ["end"]
+        if k < 0.86:
+            return self.expr(t, d - 1) + self.expr(t, d - 1) + self.expr(I32, d - 1) + ["select"]
+        if k < 0.93:
+            cands = [(i, ps) for i, (ps, rs) in enumerate(self.funcs) if rs == (t,)]
+            if cands:
+                i, ps = r.choice(cands)
+                out = []
+                for p in ps:
+                    out += self.expr(p, d - 1)
+                return out + [("call", i)]
+        if k < 0.96 and self.tt:
+            cands = [(ti, ps) for ti, (ps, rs) in self.tt.items() if rs == (t,)]
+            if cands:
+                ti, ps = r.choice(cands)
+                out = []
+                for p in ps:
+                    out += self.expr(p, d - 1)
+                return out + self.expr(I32, 0) + [("call_indirect", ti)]
+        g = [i for i, (gt, _) in enumerate(self.globals) if gt == t]
+        if g:
+            return [("global.get", r.choice(g))]
+        return self.const(t)
+
+    def stmts(self, n, d):
+        r = self.r
+        out = []
+        for _ in range(n):
+            k = r.random()
+            deep = d > 0
+            if k < 0.35 and self.lt:
+                i = r.randrange(len(self.lt))
+                out += self.expr(self.lt[i], d) + [("local.set" if r.random() < 0.8 else "local.tee", i)]
+                if out[-1][0] == "local.tee":
+                    out += ["drop"]
+            elif k < 0.5 and self.has_mem:
+                t = r.choice([I32, I64, F32, F64])
+                out += self.expr(I32, d - 1) + [("i32.const", 0xFFF), "i32.and"] + self.expr(t, d - 1) + [(r.choice(STORES[t]), r.choice([0, 2, 8, 1000]))]
+            elif k < 0.6 and deep:
+                out += self.expr(I32, d - 1) + [("if",)] + self.stmts(r.randrange(1, 3), d - 1) + (["else"] + self.stmts(1, d - 1) if r.random() < 0.5 else []) + ["end"]
+            elif k < 0.68 and deep and any(x == I32 for x in self.lt):
+                c = r.choice([i for i, x in enumerate(self.lt) if x == I32])
+                out += [("loop",)] + self.stmts(1, d - 1) + [("local.get", c), ("i32.const", 1), "i32.sub", ("local.tee", c), ("br_if", 0), "end"]
+            elif k < 0.74 and deep:
+                out += [("block",)] + self.stmts(1, d - 1) + self.expr(I32, d - 1) + [("br_table", [0, 0], 0)] + ["end"]
+            elif k < 0.8:
+                mg = [i for i, (gt, mut) in enumerate(self.globals) if mut]
+                if mg:
+                    i = r.choice(mg)
+                    out += self.expr(self.globals[i][0], d - 1) + [("global.set", i)]
+            elif k < 0.85:
+                out += ["nop"]
+            else:
+                t = r.choice([I32, I64, F32, F64])
+                out += self.expr(t, d) + ["drop"]
+        return out
+
+
+WILD_CHARS = ["a", "Z", "0", "_", "$", ".", "-", "+", "*", "/", "\\", "\"", "'", " ", "%", "é", "ß", "日", "本", "😀", "\t", "<", ">", "#", "(", ")", "[", "]", "{", "}", ";", ":", ",", "@", "!", "?", "=", "&", "|", "^", "~", "`"]
+
+
+def wild_name(r, used, maxlen=40, tame=False):
+    while True:
+        n = r.choice([1, 2, 5, 12, maxlen])
+        if tame:
+            s = "".join(r.choice("abcdefghijklmnopqrstuvwxyzABCDEFGHIJKLMNOPQRSTUVWXYZ0123456789_$.") for _ in range(n))
+        else:
+            s = "".join(r.choice(WILD_CHARS) for _ in range(n))
+        if s and s not in used:
+            used.add(s)
+            return s
+
+
+def gen_xl_module(rnd, profile):
+    """profile: dict(nfuncs, body, names, mem, table, ...). Returns (Module, info)."""
+    r = rnd
+    m = Module()
+    nf = profile["nfuncs"]
+    has_mem = profile.get("mem", True)
+    # imports first
+    used = set()
+    nimp = r.choice([0, 0, 1, 3])
+    sigs = []
+    TYPES = [I32, I64, F32, F64]
+
+    def rsig():
+        return (tuple(r.choice(TYPES) for _ in range(r.choice([0, 1, 2, 3, 5]))), tuple([r.choice(TYPES)] if r.random() < 0.8 else []))
+    for i in range(nimp):
+        ps, rs = rsig()
+        m.import_func(wild_name(r, used, 20, profile.get("tame", False)), wild_name(r, used, 30, profile.get("tame", False)), ps, rs)
+        sigs.append((ps, rs))
+    imp_glob = []
+    if r.random() < 0.3:
+        m.import_global("env", "g_imp", I32, False)
+        imp_glob.append((I32, False))
+    # function signatures
+    for i in range(nf):
+        sigs.append(rsig())
+    globals_ = list(imp_glob)
+    for i in range(r.choice([0, 1, 3])):
+        t = r.choice(TYPES)
+        mut = r.random() < 0.7
+        globals_.append((t, mut))
+    table_types = {}
+    if profile.get("table", True) and nf > 0:
+        for (ps, rs) in sigs[nimp:nimp + 4]:
+            table_types[m.type(ps, rs)] = (ps, rs)
+    bodies = []
+    dup_pool = []
+    for i in range(nf):
+        ps, rs = sigs[nimp + i]
+        if dup_pool and r.random() < profile.get("dup", 0.15):
+            # duplicate an earlier body with the same signature, if any
+            c = [b for b in dup_pool if b[0] == (ps, rs)]
+            if c:
+                b = r.choice(c)
+                bodies.append(b)
+                continue
+        nloc = r.choice([0, 1, 2, 4, 9]) if r.random() < 0.9 else r.choice([40, 120])
+        lts = list(ps) + [r.choice(TYPES) for _ in range(nloc)]
+        g = BodyGen(r, lts, sigs, has_mem, globals_, table_types)
+        size = r.choice(profile.get("sizes", [0, 1, 2, 3, 6, 15]))
+        depth = r.choice([1, 2, 3]) if r.random() < 0.9 else 5
+        code = g.stmts(size, depth)
+        for t in rs:
+            code += g.expr(t, depth)
+        # group locals by runs of equal type
+        locs = []
+        for t in lts[len(ps):]:
+            if locs and locs[-1][1] == t:
+                locs[-1] = (locs[-1][0] + 1, t)
+            else:
+                locs.append((1, t))
+        b = ((ps, rs), locs, code)
+        bodies.append(b)
+        dup_pool.append(b)
+    if has_mem:
+        m.memory(1, r.choice([None, 2, 16]), export="memory" if r.random() < 0.7 else None)
+    if table_types:
+        m.table(8, 8)
+    for (t, mut) in globals_[len(imp_glob):]:
+        m.global_(t, mut, BodyGen(r, [], [], False, [], {}).const(t))
+    fidx = []
+    for i, (sig, locs, code) in enumerate(bodies):
+        ex = None
+        if r.random() < profile.get("export_p", 0.5):
+            ex = wild_name(r, used, profile.get("maxname", 60), profile.get("tame", False))
+        nm = None
+        if profile.get("names") and r.random() < 0.7:
+            nm = wild_name(r, set(), 24, tame=profile.get("tame_names", True))
+        fidx.append(m.func(sig[0], sig[1], code, locals_=locs, export=ex, nm=nm))
+    if table_types and fidx:
+        m.elem([("i32.const", 0)], [r.choice(fidx) for _ in range(r.randrange(1, 8))])
+    if has_mem:
+        for i in range(r.choice([0, 1, 3])):
+            m.data_active([("i32.const", r.choice([0, 16, 1000, 65500]))], bytes(r.getrandbits(8) for _ in range(r.choice([0, 1, 7, 36, 300]))))
+        if r.random() < 0.3:
+            m.data_passive(bytes(r.getrandbits(8) for _ in range(r.choice([0, 5, 64]))))
+            if r.random() < 0.5:
+                m.data_active([("i32.const", 2000)], b"after-passive")
+    if r.random() < 0.2:
+        m.customs.append(("producers", b"\x00", "end"))
+    if r.random() < 0.1:
+        m.customs.append(("wild\x01sec", bytes(r.getrandbits(8) for _ in range(10)), "start"))
+    return m, bodies, sigs, nimp
+
+
+def gen_xlcorpus(outdir, seed, count):
+    os.makedirs(outdir, exist_ok=True)
+    rnd = random.Random(seed)
+    lines = []
+    for i in range(count):
+        r = random.Random(rnd.getrandbits(64))
+        prof = {"nfuncs": r.choice([0, 1, 2, 3, 5, 8, 13, 21, 34, 60]), "mem": r.random() < 0.85, "table": r.random() < 0.6,
+                "names": r.random() < 0.5, "tame": r.random() < 0.5, "tame_names": r.random() < 0.8,
+                "dup": r.choice([0.0, 0.15, 0.5]), "export_p": r.choice([0.0, 0.5, 1.0]),
+                "maxname": r.choice([10, 60, 300]), "sizes": r.choice([[0, 1, 2], [0, 1, 2, 3, 6, 15], [1, 40]])}
+        st = r.getstate()
+        m, bodies, sigs, nimp = gen_xl_module(r, prof)
+        data = m.encode()
+        name = "m%03d" % i
+        with open(os.path.join(outdir, name + ".wasm"), "wb") as f:
+            f.write(data)
+        # reference variant (a valid module with the same index space): a seeded subset of bodies is changed
+        # (a trailing nop) or replaced by a trivial body, and extra functions are appended
+        import copy
+        r2 = random.Random(seed * 1000003 + i)
+        mref = copy.deepcopy(m)
+        mref.funcs = []
+        mref.func_names = {}
+        saved_exports = mref.exports
+        changed = []
+        for k, (sig, locs, code) in enumerate(bodies):
+            x = r2.random()
+            if x < 0.25:
+                mref.func(sig[0], sig[1], list(code) + ["nop"], locals_=locs)
+                changed.append(k)
+            elif x < 0.35:
+                triv = []
+                for t in sig[1]:
+                    triv += BodyGen(r2, [], [], False, [], {}).const(t)
+                if list(code) == triv:
+                    triv = ["nop"] + triv
+                mref.func(sig[0], sig[1], triv)
+                changed.append(k)
+            else:
+                mref.func(sig[0], sig[1], code, locals_=locs)
+        for _ in range(r2.choice([0, 0, 1, 3])):
+            mref.func([I32], [I32], [("local.get", 0), ("i32.const", r2.randrange(1000)), "i32.add"])
+        mref.exports = saved_exports
+        # identical bodies elsewhere in the module make a changed function static again: report only indices whose
+        # new body occurs nowhere in the reference
+        with open(os.path.join(outdir, name + ".ref.wasm"), "wb") as f:
+            f.write(mref.encode())
+        lines.append("%s.wasm %s.ref.wasm %d %d %s" % (name, name, len(bodies), len(data), ",".join(str(c) for c in changed) or "-"))
+    with open(os.path.join(outdir, "corpus.txt"), "w") as f:
+        f.write("\n".join(lines) + "\n")
+
+
+if __name__ == "__main__" and len(sys.argv) > 1 and sys.argv[1] == "xlcorpus":
+    gen_xlcorpus(sys.argv[2], int(sys.argv[3]), int(sys.argv[4]))
